@@ -341,3 +341,110 @@ Proof.
     destruct G as (-> & Hip & Hst). split; [exact Hip|].
     destruct INV as [(HL & _ & _) _]. unfold hsp_of. rewrite HL, Hst. simpl. lia.
 Qed.
+
+(* ---------- what OpSetIndex does to the heap: the store is seen through every
+   reference to the same cell, and nothing else changes ---------- *)
+Lemma find_hset_same l c h : PositiveMap.find l (hcells (hset l c h)) = Some c.
+Proof. unfold hset; simpl. apply PositiveMap.gss. Qed.
+Lemma find_hset_other l l' c h : l' <> l -> PositiveMap.find l' (hcells (hset l c h)) = PositiveMap.find l' (hcells h).
+Proof. intro N. unfold hset; simpl. apply PositiveMap.gso. exact N. Qed.
+
+Lemma hset_frame l c h l' : l' <> l ->
+  arr_at (hset l c h) l' = arr_at h l' /\ map_at (hset l c h) l' = map_at h l'.
+Proof. intro N. unfold arr_at, map_at. rewrite (find_hset_other l l' c h N). split; reflexivity. Qed.
+
+Lemma hnorm_idx_lt f n i : normalize_index f n false = IOk i -> (i < n)%nat.
+Proof.
+  unfold normalize_index. destruct (go_int_exact f) as [z|]; [|discriminate].
+  destruct ((z <? - Z.of_nat n) || (Z.of_nat n - 1 <? z))%Z eqn:Q; [discriminate|].
+  apply orb_false_iff in Q as [Q1 Q2]. apply Z.ltb_ge in Q1, Q2.
+  destruct (z <? 0)%Z eqn:Q3; intro H; inversion H; subst.
+  - apply Z.ltb_lt in Q3. lia.
+  - apply Z.ltb_ge in Q3. lia.
+Qed.
+
+Lemma hnth_set_nth_same {A} n (x : A) : forall l, (n < List.length l)%nat -> nth_error (set_nth n x l) n = Some x.
+Proof. induction n as [|n IH]; intros [|y t] H; simpl in *; try lia; [reflexivity|apply IH; lia]. Qed.
+
+Lemma hnth_set_nth_other {A} n m (x : A) : forall l, n <> m -> nth_error (set_nth n x l) m = nth_error l m.
+Proof.
+  revert m. induction n as [|n IH]; intros m [|y t] H; simpl; try reflexivity.
+  - destruct m; [congruence|reflexivity].
+  - destruct m; [reflexivity|]. simpl. apply IH. congruence.
+Qed.
+
+(* a[i] = v through one reference [HArr l]: a read of index i through ANY value
+   referring to the cell l (another global, local, stack slot, an element of
+   another array, a map value) gives v; the other elements, the length, every
+   other cell and the allocation pointer are unchanged *)
+Theorem store_array_visible : forall h l f v h',
+  hset_index h [HNum f; HArr l; v] = SOk h' ->
+  hindex h' (HArr l) (HNum f) = ROk v h' /\
+  (exists i, normalize_index f (List.length (arr_at h l)) false = IOk i /\
+             arr_at h' l = set_nth i v (arr_at h l) /\
+             forall j, j <> i -> nth_error (arr_at h' l) j = nth_error (arr_at h l) j) /\
+  List.length (arr_at h' l) = List.length (arr_at h l) /\
+  (forall l', l' <> l -> arr_at h' l' = arr_at h l' /\ map_at h' l' = map_at h l') /\
+  hnext h' = hnext h.
+Proof.
+  intros h l f v h' H. unfold hset_index in H.
+  destruct (normalize_index f (List.length (arr_at h l)) false) as [i|e] eqn:EN; [|discriminate].
+  inversion H; subst h'; clear H.
+  assert (A : arr_at (hset l (CArr (set_nth i v (arr_at h l))) h) l = set_nth i v (arr_at h l))
+    by (unfold arr_at at 1; rewrite find_hset_same; reflexivity).
+  pose proof (hnorm_idx_lt _ _ _ EN) as Hlt.
+  split; [|split; [|split; [|split]]].
+  - unfold hindex. rewrite A, set_nth_length, EN, hnth_set_nth_same by exact Hlt. reflexivity.
+  - exists i. split; [reflexivity|]. split; [exact A|]. intros j Hj. rewrite A. apply hnth_set_nth_other. congruence.
+  - rewrite A. apply set_nth_length.
+  - intros l' N. apply hset_frame. exact N.
+  - reflexivity.
+Qed.
+
+Lemma hlookup_set_same k v : forall m, hlookup k (hmap_set k v m) = Some v.
+Proof.
+  induction m as [|[k' v'] r IH]; simpl.
+  - rewrite str_eqb_refl. reflexivity.
+  - destruct (str_eqb k' k) eqn:E; simpl; rewrite E; [reflexivity|exact IH].
+Qed.
+
+Lemma hlookup_set_other k k2 v : str_eqb k2 k = false -> forall m, hlookup k2 (hmap_set k v m) = hlookup k2 m.
+Proof.
+  intros N m. induction m as [|[k' v'] r IH]; simpl.
+  - destruct (str_eqb k k2) eqn:E; [|reflexivity].
+    apply str_eqb_eq in E. subst. rewrite str_eqb_refl in N. discriminate.
+  - destruct (str_eqb k' k) eqn:E; simpl.
+    + apply str_eqb_eq in E. subst k'. destruct (str_eqb k k2) eqn:E2; [|reflexivity].
+      apply str_eqb_eq in E2. subst. rewrite str_eqb_refl in N. discriminate.
+    + destruct (str_eqb k' k2); [reflexivity|exact IH].
+Qed.
+
+(* m[k] = v through one map value [HMap order l]: a read of key k through ANY
+   map value that refers to the cell l — whatever `order` that copy carries —
+   gives v (also when k is new: the insertion is in the shared Go map); the
+   other keys, every other cell and the allocation pointer are unchanged.  No
+   `order` changes: it lives in the values, and hset_index returns only a heap
+   (the recorded divergence vm-map-insert-lost, exactly as on the real VM). *)
+Theorem store_map_visible : forall h order l k v h',
+  hset_index h [HStr k; HMap order l; v] = SOk h' ->
+  (forall order', hindex h' (HMap order' l) (HStr k) = ROk v h') /\
+  (forall k2, str_eqb k2 k = false -> hlookup k2 (map_at h' l) = hlookup k2 (map_at h l)) /\
+  (forall l', l' <> l -> arr_at h' l' = arr_at h l' /\ map_at h' l' = map_at h l') /\
+  hnext h' = hnext h.
+Proof.
+  intros h order l k v h' H. unfold hset_index in H. inversion H; subst h'; clear H.
+  assert (A : map_at (hset l (CMap (hmap_set k v (map_at h l))) h) l = hmap_set k v (map_at h l))
+    by (unfold map_at at 1; rewrite find_hset_same; reflexivity).
+  split; [|split; [|split]].
+  - intro order'. unfold hindex. rewrite A, hlookup_set_same. reflexivity.
+  - intros k2 N. rewrite A. apply hlookup_set_other. exact N.
+  - intros l' N. apply hset_frame. exact N.
+  - reflexivity.
+Qed.
+
+(* without OpSetIndex no existing cell ever changes (allocation only): the
+   instructions other than OpSetIndex leave every cell below the allocation
+   pointer as it is *)
+Definition heap_extends (h h' : heap) : Prop :=
+  (hnext h <= hnext h')%positive /\
+  forall l, (l < hnext h)%positive -> PositiveMap.find l (hcells h') = PositiveMap.find l (hcells h).
